@@ -115,6 +115,21 @@ func (r *Runner) Restart() error {
 	return nil
 }
 
+// adoptRanges copies the int8 quantiser range of every index from the engine into the model.
+func (r *Runner) adoptRanges() {
+	if r.E == nil {
+		return
+	}
+	for name, mi := range r.M.Idx {
+		mi.Range = 0
+		if h := hnswOf(r.E, name); h != nil {
+			if q := h.Quantizer(); q != nil && string(h.Precision()) == "int8" {
+				mi.Range = q.AbsMax
+			}
+		}
+	}
+}
+
 func (r *Runner) probeIDs() map[string][]string {
 	p := map[string][]string{}
 	for _, n := range uIndexes {
@@ -449,6 +464,7 @@ func (r *Runner) Step(op Op) string {
 	r.tracef("%s idx=%s id=%s -> err=%v", op.K, op.Idx, op.ID, err)
 
 	r.LastErr = err
+	r.adoptRanges()
 	if err != nil {
 		r.NRejected++
 		if exp == MustOK {
